@@ -52,4 +52,5 @@ func (l *logLogger) Printf(f string, v ...interface{}) { l.l.Printf(f, v...) }
 func (l *logLogger) Println(v ...interface{})          { l.l.Println(v...) }
 func (l *logLogger) SetFlags(flag int)                 { l.l.SetFlags(flag) }
 func (l *logLogger) SetOutput(w io.Writer)             { l.l.SetOutput(w) }
+func (l *logLogger) SetPrefix(prefix string)           { l.l.SetPrefix(prefix) }
 func (l *logLogger) Writer() io.Writer                 { return l.l.Writer() }
